@@ -268,11 +268,16 @@ func (g *genCtx) genReq(http bool) string {
 				p := strings.Split(wire.Pick(r, u), "|")
 				iss, sub = p[0], p[1]
 			}
+			// JWT claims: issuer and subject are non-empty, the subject carries no '/' (assumptions of the statement)
 			if r.Chance(1, 4) {
-				iss = g.mutate(iss)
+				if m := g.mutate(iss); m != "" {
+					iss = m
+				}
 			}
 			if r.Chance(1, 4) {
-				sub = strings.ReplaceAll(g.mutate(sub), "/", "")
+				if m := strings.ReplaceAll(g.mutate(sub), "/", ""); m != "" {
+					sub = m
+				}
 			}
 			add(jwt, "payload|iss", "s", iss)
 			if !r.Chance(1, 10) {
